@@ -88,7 +88,11 @@ BAD_NAMES = ["1a", "a-b", "a.b", "é", "$a", "${B}", "$$a", "a$b", "aé", "b²",
              "(a)", "a(b)c", "a)(", "a,b", "a;b", "a=b", "a:b", "a/b", "a+"]
 ENV_SET = "ZCSIM_E1"
 ENV_UNSET = "ZCSIM_E2"
+ENV_DOLLAR = "ZCSIM_E3"     # set to a value that itself contains '$'
+ENV_DOLLAR_VALUES = ["$a", "${B}", "$$", "x$ab", "$(ZCSIM_E1)", "$",
+                     "100$$ $a"]
 USE_STYLES = ["$%s", "${%s}", "p${%s}q", "$%s$%s", "$%s.x", "$%s-y",
+              "$$(%s)", "$%s$(ZCSIM_E3)",
               "x$%s", "$$$%s", "${%s}${%s}", "$%sé", "$%s²", "$%s١",
               "$%sさん"]
 TOPS = ["file:///sim/c05/d1/top.conf", "http://sim.test/c05/d1/top.conf"]
@@ -103,7 +107,11 @@ def value_shapes(other):
 
 
 PLAIN_VALUES = ["x", "y", "", "  padded  ", "two words", "$$", "x$$y"]
-EXTRA_VALUES = ["$(%s)" % ENV_SET, "$(%s)" % ENV_UNSET, "x$", "${a", "$-"]
+EXTRA_VALUES = ["$(%s)" % ENV_SET, "$(%s)" % ENV_UNSET, "x$", "${a", "$-",
+                "$(%s)" % ENV_DOLLAR, "x$(%s)y" % ENV_DOLLAR,
+                # an escaped dollar followed by a parenthesised word is
+                # literal text, not an environment reference
+                "$$(%s)" % ENV_SET, "$$(a)", "$$(nosuch) $a", "$$$(%s)" % ENV_SET]
 
 
 # ---------------------------------------------------------------------------
@@ -470,7 +478,8 @@ def generate(rng, tier, index):
     steps = structure(rng, steps)
     plan = {"prop": ID, "origin": origin, "steps": steps,
             "top": rng.choice(TOPS), "other": other_history(rng),
-            "env": dict({ENV_SET: "envval"}, **(
+            "env": dict({ENV_SET: "envval",
+                         ENV_DOLLAR: rng.choice(ENV_DOLLAR_VALUES)}, **(
                 # environment variables spelled like the names used in the
                 # text: a reference must never fall through to them
                 {k: "envleak-" + k for k in ("a", "A", "B", "b", "aB", "AB",
